@@ -1,8 +1,8 @@
 CONSTANTS
   MaxLinks = 2
-  OptStride = 12
-  LinkStride = 512
-  PermMax = 4
+  OptStride = 1
+  LinkStride = 32
+  PermMax = 5
 SPECIFICATION Spec
 INVARIANTS Terminates NothingRejected StackBounded EndBag EndValid EndAllOuts EndExpected EndLoop EndParentChild EndSiblings EndOnce EndExactSet PredicateTight ListingLemma
 CHECK_DEADLOCK TRUE
